@@ -75,6 +75,8 @@ pub struct Opts {
     /// "always the first legal call" and "always the last legal call")
     pub paths: usize,
     pub seed: u64,
+    /// reconsider_all_jobs() is one of the driver's choices in every unfinished state
+    pub reconsider: bool,
 }
 impl Default for Opts {
     fn default() -> Self {
@@ -86,6 +88,7 @@ impl Default for Opts {
             single: false,
             paths: 0,
             seed: 1,
+            reconsider: false,
         }
     }
 }
@@ -329,6 +332,7 @@ pub fn world_from_ctx(c: &Value) -> (World, EvalCfg, Opts) {
         single: c["single"].as_bool().unwrap_or(false),
         paths: c["paths"].as_u64().unwrap_or(0) as usize,
         seed: 1,
+        reconsider: false,
     };
     (w, cfg, opts)
 }
@@ -470,6 +474,9 @@ pub fn explore_ctx(
             legal.truncate(1);
         }
         let mut calls: Vec<Call> = legal;
+        if opts.reconsider && !calls.is_empty() && !here.b.aborting && !snapshot_finished_pub(&here) {
+            calls.push(Call::Reconsider);
+        }
         if opts.misuse {
             calls.extend(here.illegal_calls());
         }
